@@ -1,6 +1,6 @@
 (* C08 bitmap1024: what the driver evaluates on every observed case *)
 From Coq Require Import List Bool ZArith NArith Lia.
-Require Export BitSet C08_Model C08_Spec C08_Lit.
+Require Export BitSet C08_Model C08_Spec C08_Prog C08_Lit.
 Require Import C08_Word C08_Iter C08_Set.
 Import ListNotations.
 Open Scope Z_scope.
@@ -17,7 +17,9 @@ Inductive case :=
 | CBin (k : bkind) (a b r : list N)
 | CEqual (a b : list N) (r : bool)
 | CWord (k : wkind) (w : N) (arg : Z) (r : N)
-| CWordLen (w : N) (len nlen : Z) (full : bool).
+| CWordLen (w : N) (len nlen : Z) (full : bool)
+(* a program over a pool of bitmaps; obs = every pool member's words after every step (C08_Prog.v) *)
+| CProg (ops : list pop) (obs : list (list (list N))).
 
 (* the initial slice content the harness uses (kept symbolic in the case files to keep them small) *)
 Definition fill (ty : ity) (len seed : Z) : list Z := map (fun j => norm ty (seed + 7 * j)) (zseq 0 (Z.to_nat len)).
@@ -36,6 +38,7 @@ Definition case_accept (c : case) : bool :=
   | CEqual a b r => wfws a && wfws b && Bool.eqb r (equal1024 a b)
   | CWord k w arg r => wfw w && (0 <=? arg) && N.eqb r (wordop k w arg)
   | CWordLen w len nlen full => wfw w && Z.eqb len (len64 w) && Z.eqb nlen (nlen64 w) && Bool.eqb full (full64 w)
+  | CProg ops obs => nlll_eqb obs (mrun ops [])
   end.
 
 (* ---------------- holds: the property's clauses on the observation ---------------- *)
@@ -55,13 +58,14 @@ Definition case_holds (c : case) : bool :=
   | CWordLen w len nlen full =>
       wfw w && Z.eqb len (count_if (mem64 w) dom64) && Z.eqb nlen (count_if (fun j => negb (mem64 w j)) dom64)
       && Bool.eqb full (Z.eqb (count_if (mem64 w) dom64) 64)
+  | CProg ops obs => prog_ok obs (srun ops [])
   end.
 
 (* ---------------- accept implies holds: the model meets the specification on every input ---------------- *)
 Theorem case_sound : forall c, case_accept c = true -> case_holds c = true.
 Proof.
   intros [ty rev magic w s pos add n o | ty rev magic ws s pos add n o | ty rev magic w n o | ty rev magic ws n o
-         | k ws i r | ws len nlen | a r | k a b r | a b r | k w arg r | w len nlen full];
+         | k ws i r | ws len nlen | a r | k a b r | a b r | k w arg r | w len nlen full | ops obs];
     cbn [case_accept case_holds]; intros H.
   - apply andb_prop in H. destruct H as [Hw Ho]. apply out_eqb_eq in Ho. subst o. rewrite Hw. cbn [andb].
     rewrite (iter64_spec ty add rev magic w s pos n Hw). apply out_eqb_refl.
@@ -88,4 +92,5 @@ Proof.
     apply Z.eqb_eq in Hl. apply Z.eqb_eq in Hn. subst len nlen. rewrite Hw. cbn [andb].
     rewrite <- (len64_count w Hw), <- (nlen64_count w Hw), !Z.eqb_refl. cbn [andb].
     rewrite (len64_count w Hw), <- (full64_count w Hw). exact Hf.
+  - apply nlll_eqb_eq in H. subst obs. apply prog_sound. constructor.
 Qed.
